@@ -28,12 +28,19 @@ from ..runner import Result, new_failure
 from ..terms import Leaf, Rng, Seq, Cho, Of, Tag, M, Grp, Module, render_module, render_type, all_members
 from ..tagging import legalize
 from ..values import dom
-from ..casefmt import errclass as _errclass_raw, valrepr, case_fields, rebuild_case
+from ..casefmt import errclass as _errclass_raw, valrepr as _valrepr_raw, case_fields, rebuild_case
 from .. import shrink as shrinker
 
 import re
 
 _LOC = re.compile(r'^[A-Za-z][\w\-]*(\.[\w\-]+)*: ')
+
+
+def valrepr(v):
+    try:
+        return _valrepr_raw(v)
+    except ValueError:          # e.g. an integer of more than 4300 digits decoded from the wrong offset
+        return '<value that repr() refuses to print>'
 
 
 def errclass(e):
@@ -72,7 +79,7 @@ ASSUMPTIONS = [
     'numeric_enums=False only; EXTENSIBILITY IMPLIED not explored (it only adds markers, which the terms already carry).',
     'Value domains are boundary sets from mc.values.dom (big lengths off), products deviation-bounded (k<=2, cap 48); '
     'the frame is (head TRUE, tail 165) for every value plus (head FALSE, tail 0) for the base value; values holding a '
-    'list longer than 20 elements are left to C01; up to three extra values per type put 16384 octets into one '
+    'list longer than 20 elements are left to C01; up to two extra values per type put 16384 octets into one '
     'unconstrained OCTET STRING component (long-form length / fragmented open type around a skipped addition).',
     'Step budget: 30000 + 4000 events per encoded byte.',
 ]
@@ -106,8 +113,10 @@ def bounds(tier):
     return {'tier': tier, 'base_terms': 'L1(W<=%d,K<=%d) + L2 + boundary family (6..16 additions, 30..64 alternatives, every extensible leaf), '
                           'extensible only, references inlined' % (p['W'], p['K']),
             'steps_S': p['S'], 'tag_environments': list(p['envs']), 'codecs': list(CODECS),
-            'step_alphabet': 'full at base terms with <= 2 components in the extended constructor path, reduced elsewhere; '
-                             'second steps reduced', 'value_deviation_k': 2}
+            'step_alphabet': 'full (18 SEQUENCE/SET steps, 6 CHOICE steps, 2 ENUMERATED steps, widen) at base terms with <= 2 '
+                             'nodes below the root, reduced (7 / 4 / 1, widen) elsewhere; second steps (thorough, base '
+                             'terms with <= %d nodes below the root) use the reduced alphabet' % p['s2_w'],
+            'value_deviation_k': 2, 'max_list_length': MAXLIST}
 
 
 def boundary_terms(tier):
@@ -533,11 +542,9 @@ def _work(unit):
                         nok += 1
                         continue
                     kind, detail, e = r
-                    last = ops[-1]
-                    site = V.node_kind(_node_at(news[ni][1], ('x',) + last[0]))
+                    # group by root cause: what the older version does not know, not where it sits
                     sig = '|'.join([kind, codec, unit.tags if codec in ('ber', 'der') else '',
-                                    opclass(ops[g - 1:]), site,
-                                    _unknown_class(oldL, newL, v) if direction == 'down' else '',
+                                    _unknown_class(oldL, newL, v) if direction == 'down' else opclass(ops[g - 1:]),
                                     '16k' if _has_big(v) else '',
                                     detail if 'raised' in kind or 'budget' in kind else ''])
                     res.outcome(kind + ':' + codec)
@@ -589,42 +596,22 @@ def _node_at(t, path):
 
 
 def _unknown_class(old, new, v):
-    """Which kinds of unknown things the projection of v contains (groups failures by cause)."""
+    """Which unknown things (and in which context) the value holds for the older version: groups
+    failures by cause.  e.g. 'item@element', 'comp@member', 'alt@member'."""
+    from ..kp_c07 import unknown_sites
     try:
-        e = V.pi(old, new, v)
+        sites = unknown_sites(old, new, v)
     except Exception:
         return '?'
-    out = set()
-    _scan(V._bare(old), V._bare(new), v, e, out)
+    out = {'%s@%s' % s for s in sites}
+    if not out and _has_wide(new):
+        out.add('range')
     return ','.join(sorted(out))
 
 
-def _scan(old, new, v, e, out):
-    old, new = V._bare(old), V._bare(new)
-    if isinstance(old, Leaf):
-        if old.kind == 'ENUMERATED' and e is None:
-            out.add('item')
-        elif isinstance(new.rng, V.WRng) or isinstance(new.size, V.WRng):
-            out.add('range')
-    elif isinstance(old, Seq):
-        newm = {m.name: m for m in all_members(new)}
-        oldn = {m.name for m in all_members(old)}
-        if any(k not in oldn for k in v):
-            out.add('comp')
-        for m in all_members(old):
-            if m.name in v:
-                _scan(m.t, newm[m.name].t, v[m.name], e[m.name], out)
-    elif isinstance(old, Cho):
-        if e[0] is None:
-            out.add('alt')
-        else:
-            newm = {m.name: m for m in all_members(new)}
-            for m in all_members(old):
-                if m.name == v[0]:
-                    _scan(m.t, newm[m.name].t, v[1], e[1], out)
-    elif isinstance(old, Of):
-        for x, y in list(zip(v, e))[:4]:
-            _scan(old.elem, new.elem, x, y, out)
+def _has_wide(t):
+    return any(isinstance(getattr(n, 'rng', None), V.WRng) or isinstance(getattr(n, 'size', None), V.WRng)
+               for _, n in V.nodes(t))
 
 
 # ---------------------------------------------------------------------------
